@@ -583,4 +583,50 @@ theorem flow_inside (D : Matrix) (p h : Int) (I : Inst) (hI : mkInstance D p h =
   refine ⟨by simp [hij, hin], ?_⟩
   rw [hh]; omega
 
+
+theorem mapM_ne_none {α β} (f : α → Option β) : ∀ (l : List α), (∀ a ∈ l, f a ≠ none) →
+    l.mapM f ≠ none := by
+  intro l
+  induction l with
+  | nil => intro _; simp
+  | cons a t ih =>
+    intro h
+    rw [List.mapM_cons]
+    cases hfa : f a with
+    | none => exact absurd hfa (h a (by simp))
+    | some b =>
+      cases ht : t.mapM f with
+      | none => exact absurd ht (ih (fun x hx => h x (by simp [hx])))
+      | some bs => simp
+
+/-- on a square matrix the constructor never reads outside `distances` -/
+theorem mkInstance_ne_oob (D : Matrix) (p h : Int) (hsq : Square D) :
+    mkInstance D p h ≠ .oob ∧ mkInstance D p h ≠ .diverge := by
+  have key : ∀ dbl maxVal (q : Nat),
+      (List.range D.length).mapM (flowRow D dbl maxVal h q) ≠ none := by
+    intro dbl maxVal q
+    apply mapM_ne_none
+    intro i hi
+    have hi : i < D.length := by simpa using hi
+    unfold flowRow
+    apply mapM_ne_none
+    intro j hj
+    have hj : j < D.length := by simpa using hj
+    have hrl : (D[i]).length = D.length := hsq _ (List.getElem_mem hi)
+    have hjr : j < (D[i]).length := by omega
+    by_cases hij : i = j
+    · simp [hij]
+    · simp only [hij, if_false]
+      simp only [List.getElem?_eq_getElem hi, Option.bind_some, List.getElem?_eq_getElem hjr]
+      split <;> simp
+  unfold mkInstance
+  simp only []
+  constructor
+  · repeat' split
+    all_goals first | (intro hc; cases hc; done) | skip
+    rename_i hF
+    exact absurd hF (key _ _ _)
+  · repeat' split
+    all_goals (intro hc; cases hc)
+
 end Order1d
